@@ -90,12 +90,16 @@ def _apply_common(resp: Any, r: Dict[str, Any]) -> Any:
     return resp
 
 
-def _sync_producer(items: List[Any], raise_at: Optional[int], log: Optional[List[str]]):
+def _sync_producer(items: List[Any], raise_at: Optional[int], log: Optional[List[str]], delays: Optional[List[float]] = None):
     def gen():
         if log is not None:
             log.append("enter")
         try:
             for i, it in enumerate(items):
+                if delays and i < len(delays) and delays[i]:
+                    import time
+
+                    time.sleep(delays[i])  # an idle producer (real time: the WSGI event stream pings from a real thread)
                 if raise_at is not None and i == raise_at:
                     raise ProducerError(f"producer failed at step {i}")
                 yield dict(it) if isinstance(it, dict) else it
@@ -175,7 +179,7 @@ def build_response(r: Dict[str, Any], side: str, log: Optional[List[str]] = None
         kw["ping_interval"] = r.get("ping_interval", 30)
         if r.get("charset"):
             kw["charset"] = r["charset"]
-        prod = _sync_producer(r["events"], r.get("raise_at"), log) if side == "wsgi" else _async_producer(r["events"], r.get("raise_at"), log, r.get("delays"))
+        prod = _sync_producer(r["events"], r.get("raise_at"), log, r.get("delays")) if side == "wsgi" else _async_producer(r["events"], r.get("raise_at"), log, r.get("delays"))
         resp = M.SendEventResponse(prod, **kw)
     elif kind == "file":
         root = materialise({r.get("name", "f.txt"): pattern(r["size"])})
